@@ -974,6 +974,17 @@ impl Shard {
             return Err(Error::BadConfig);
         }
 
+        // A mirror follows one of the servers above.
+        for mirror in self.mirrors.iter().flatten() {
+            if mirror.mirroring_target_index >= self.servers.len() {
+                error!(
+                    "Shard {} has a mirror ({}:{}) whose mirroring_target_index {} is not one of its servers",
+                    self.database, mirror.host, mirror.port, mirror.mirroring_target_index
+                );
+                return Err(Error::BadConfig);
+            }
+        }
+
         Ok(())
     }
 }
